@@ -36,6 +36,9 @@ func (c cfgCase) typeOf(j int) (t string, key string, group string) {
 	case "keyed":
 		return fmt.Sprintf("P%d", j), "k", ""
 	case "group":
+		if c.Extra == "merge12" && j == 2 {
+			return "P1", "", "g" // services 1 and 2 are two members of one group
+		}
 		return fmt.Sprintf("P%d", j), "", "g"
 	case "alias":
 		// at most two alias targets
@@ -58,6 +61,9 @@ func (c cfgCase) spec() kit.Spec {
 			continue
 		}
 		r := kit.Reg{ID: i, Life: c.Life[i], Outs: []kit.Out{{T: fmt.Sprintf("P%d", i)}}}
+		if c.Extra == "merge12" && i == 2 && c.Target[2] == "group" {
+			r.Outs = []kit.Out{{T: "P1"}}
+		}
 		if len(c.Kind) > i && c.Kind[i] != "" {
 			r.Kind = c.Kind[i]
 			r.Outs = nil
